@@ -3,7 +3,8 @@ import XmppModel.Model.Muc
 /-! Driver module for C18: replays an observed MUC history on the LTS of `Model/Muc.lean`.
 
     C18 muc <addrs> <trace>      addrs: occupant address id of channel 0,1,… (`,`-joined)
-      J<c> Join starts (registered, request queued)   s<c> Join enters its select
+      J<c> Join starts (registered, request queued); J<c>@<a> the same with the Nick option (address a)
+      s<c> Join enters its select   R<c>re Join refused at once (address in use by another channel)
       A<a> / U<a> available / unavailable muc#user presence from address a processed
       Ej<c> error reply to c's join presence taken   Xj<c> join context done and taken
       R<c>ok | R<c>se | R<c>ce   Join returned nil / the stanza error / the context error
@@ -21,15 +22,25 @@ def bits (n : Nat) (s : St) : String := String.ofList ((List.range n).map fun c 
 
 def chk (b : Bool) (s : St) : Option St := if b then some s else none
 
-def applyTok (addr : Nat → Nat) (n : Nat) (s : St) (tok : String) : Option St :=
+def parseChild (c : Char) : Option Child :=
+  if c = 'b' then some .body else if c = 's' then some .subject else if c = 'l' then some .legacyX
+  else if c = 'u' then some .unrelated else if c = 'm' ∨ c = 'M' then some .mucInvite
+  else if c = 'd' then some .mucOther else none
+
+def applyTok (n : Nat) (s : St) (tok : String) : Option St :=
   let idx (r : List Char) : Option Nat := do let c ← numOf r; if c < n then some c else none
   match tok.toList with
-  | 'J' :: r => do let c ← idx r; step addr s (.joinStart c)
+  | 'J' :: r =>
+    -- J<c>: Join asking for the address the channel holds;  J<c>@<a>: Nick option, address a
+    match (String.ofList r).splitOn "@" with
+    | [cs] => do let c ← idx cs.toList; step s (.joinStart c (s.cur c))
+    | [cs, as] => do let c ← idx cs.toList; let a ← as.toNat?; step s (.joinStart c a)
+    | _ => none
   | 's' :: r => do let _ ← idx r; some s   -- entering the select is not a model step
-  | 'A' :: r => do let a ← numOf r; step addr s (.avail a)
-  | 'U' :: r => do let a ← numOf r; step addr s (.unavail a)
-  | 'E' :: 'j' :: r => do let c ← idx r; step addr s (.joinError c)
-  | 'X' :: 'j' :: r => do let c ← idx r; step addr s (.joinCancel c)
+  | 'A' :: r => do let a ← numOf r; step s (.avail a)
+  | 'U' :: r => do let a ← numOf r; step s (.unavail a)
+  | 'E' :: 'j' :: r => do let c ← idx r; step s (.joinError c)
+  | 'X' :: 'j' :: r => do let c ← idx r; step s (.joinCancel c)
   | 'E' :: 'l' :: r => do let c ← idx r; chk (s.lpc c == .waiting) s
   | 'X' :: 'l' :: r => do let c ← idx r; chk (s.lpc c == .waiting) s
   | 'R' :: r =>
@@ -37,38 +48,43 @@ def applyTok (addr : Nat → Nat) (n : Nat) (s : St) (tok : String) : Option St 
     if str.endsWith "ok" then do
       let c ← (str.dropEnd 2).toString.toNat?
       chk (s.lastJoin c == some .ok && s.jpc c == .idle) s
+    else if str.endsWith "re" then do
+      let c ← (str.dropEnd 2).toString.toNat?
+      chk (s.lastJoin c == some (.err .refused) && s.jpc c == .idle) s
     else if str.endsWith "se" then do
       let c ← (str.dropEnd 2).toString.toNat?
-      let s' ← step addr s (.joinCleanup c)
+      let s' ← step s (.joinCleanup c)
       chk (s'.lastJoin c == some (.err .stanzaErr)) s'
     else if str.endsWith "ce" then do
       let c ← (str.dropEnd 2).toString.toNat?
-      let s' ← step addr s (.joinCleanup c)
+      let s' ← step s (.joinCleanup c)
       chk (s'.lastJoin c == some (.err .ctxErr)) s'
     else none
-  | 'L' :: r => do let c ← idx r; step addr s (.leaveStart c)
+  | 'L' :: r => do let c ← idx r; step s (.leaveStart c)
   | 'l' :: r => do let _ ← idx r; some s
   | 'D' :: r =>
     let str := String.ofList r
     if str.endsWith "ok" then do
       let c ← (str.dropEnd 2).toString.toNat?
-      step addr s (.leaveDepart c)
+      step s (.leaveDepart c)
     else if str.endsWith "se" then do
       let c ← (str.dropEnd 2).toString.toNat?
-      step addr s (.leaveError c)
+      step s (.leaveError c)
     else if str.endsWith "ce" then do
       let c ← (str.dropEnd 2).toString.toNat?
-      step addr s (.leaveCancel c)
+      step s (.leaveCancel c)
     else none
-  | ['I'] => step addr s .invite
-  | ['N'] => step addr s .unrelated
+  | 'I' :: r =>
+    -- I<children>: b body, s subject, l legacy x, u unrelated, m / M muc#user x with an invitation, d decline
+    (mapM? parseChild r).bind fun cs => step s (.message cs)
+  | ['N'] => step s .unrelated
   | '?' :: r => chk (String.ofList r == bits n s) s
   | _ => none
 
-def replay (addr : Nat → Nat) (n : Nat) : List String → Nat → St → Except String St
+def replay (n : Nat) : List String → Nat → St → Except String St
   | [], _, s => .ok s
-  | t :: ts, k, s => match applyTok addr n s t with
-    | some s' => replay addr n ts (k + 1) s'
+  | t :: ts, k, s => match applyTok n s t with
+    | some s' => replay n ts (k + 1) s'
     | none => .error s!"bad@{k}:{t}"
 
 def handle (args : List String) : Option String :=
@@ -76,7 +92,7 @@ def handle (args : List String) : Option String :=
   | ["muc", addrs, trace] => do
     let l ← mapM? String.toNat? (splitList addrs)
     let addr := fun c => match l[c]? with | some a => a | none => 100000 + c
-    match replay addr l.length (splitList trace) 0 init with
+    match replay l.length (splitList trace) 0 (init addr) with
     | .ok s => pure s!"joined={bits l.length s} upres={s.upres} inv={s.invites}"
     | .error e => pure e
   | _ => none
